@@ -432,9 +432,8 @@ DoDoneBalanced ==
            ELSE calls[c].dos = 1 /\ calls[c].dones = 1)
     /\ pri = Cardinality({c \in InFlight : calls[c].dos > calls[c].dones})
 
-BackgroundFetchOnlyAfterMountReturns ==
-    /\ [][last'.act = "BgStart" => pri = 0]_vars
-    /\ \A o \in OIds : objs[o].bg = "running" => pri = 0
+BackgroundFetchOnlyAfterMountReturns == \A o \in OIds : objs[o].bg = "running" => pri = 0
+BackgroundFetchStartsIdle == [][last'.act = "BgStart" => pri = 0]_vars
 
 \* internal consistency
 TypeOK ==
